@@ -86,6 +86,21 @@ package scen
 //                                     c14_ownedds.go; resettable-keystore in
 //                                     factory mode.
 //
+// Callers that give up (c14Flow.mayAbandon; keystore scenarios, c14_stores.go):
+// "the caller's context ends" is a scheduler choice for an operation in
+// flight. No rule of its own - "those operations finish or fail without panic
+// or deadlock" and "Close ... returns only after all goroutines the instance
+// started have exited" are op-hang, close-hang, second-close-hang, close-early
+// and leak above; the choice only produces the instants at which the instance
+// finishes work nobody waits for any more.
+//
+// A keystore the caller supplied to a provider is closed by the caller after
+// the provider; that Close is judged by close-hang / close-panic as well
+// (c14JudgeCallerKeystoreClose, c14_provider.go): "Close on every component
+// (... keystores)", after the provider's Close ended the context of calls the
+// keystore was executing. What such a keystore still does on its own after the
+// provider's Close returned is not work of the provider (c14Flow.callers).
+//
 // The overlapping Close is generated for every component except the sweeping
 // provider and its wrappers: their Close is a sync.Once around blocking work,
 // and a second caller blocks on the Once's internal mutex, which synctest
@@ -489,6 +504,10 @@ type c14Client struct {
 	run     func(ctx context.Context) (any, error)
 	op      *Op
 	started bool
+	// cancel ends the caller's context (set only in flows with mayAbandon);
+	// abandoned: it was called
+	cancel    context.CancelFunc
+	abandoned bool
 }
 
 type c14Flow struct {
@@ -580,6 +599,29 @@ type c14Flow struct {
 	// for its environment as long as the environment takes. Time that passes
 	// while a stalled call is parked does not count towards B.
 	stall func(p *sim.Parked) bool
+
+	// callers, when set, says which parked calls are made by a component that
+	// belongs to the caller, not to the instance (a keystore the caller built,
+	// handed to the provider and closes itself after the provider): work such a
+	// component still does on its own after the instance's Close returned - a
+	// keystore that recounts its size after a call of the provider failed
+	// half-way - is not work of the instance; close-live-call skips it. (The
+	// instance's own goroutines stay under close-early, whose census ignores
+	// only what existed before the instance was built, and under leak.)
+	callers func(p *sim.Parked) bool
+	// mayAbandon, when set (before the operations are registered), makes "the
+	// caller's context ends" a scheduler choice of the workload phase for every
+	// operation that is in flight and for which it says true: the caller gives
+	// up (time-out, cancellation) at that instant, whatever the instance is
+	// doing on its behalf. The operation then has to return like any other
+	// ("those operations finish or fail"), and whatever the instance still does
+	// for it must not keep a later operation or Close from returning. No rule of
+	// its own: op-hang, close-hang, second-close-hang, close-early, leak.
+	mayAbandon func(c *c14Client) bool
+	// onAbandon is called right before the context ends (probes)
+	onAbandon func(c *c14Client)
+	// abandons counts the callers that gave up
+	abandons int
 
 	// overlapOK: the scenario allows a second Close that overlaps the first
 	// (drawn in run). Not set for components whose Close is a sync.Once around
@@ -688,6 +730,9 @@ func (f *c14Flow) checkCloseInstant(overlapOnly bool) {
 			if p.Ctx == nil || p.Cancelled() || inflight[sim.TagOf(p.Ctx)] {
 				continue
 			}
+			if f.callers != nil && f.callers(p) {
+				continue
+			}
 			live = append(live, p.ID)
 		}
 		if len(live) > 0 {
@@ -714,13 +759,17 @@ func (f *c14Flow) client(name string, run func(ctx context.Context) (any, error)
 	f.clients = append(f.clients, c)
 	tag := fmt.Sprintf("o%02d", len(f.clients))
 	c.tag = tag
+	ctx := sim.WithTag(context.Background(), tag)
+	if f.mayAbandon != nil {
+		ctx, c.cancel = context.WithCancel(ctx)
+	}
 	c.op = f.ops.Go(f.s, name, func() (any, error) {
 		out, _ := f.s.Park("client", tag+":"+name, nil, c)
 		if out != nil {
 			return nil, nil // skipped: never started
 		}
 		c.started = true
-		return c.run(sim.WithTag(context.Background(), tag))
+		return c.run(ctx)
 	})
 	return c
 }
@@ -766,6 +815,23 @@ func (f *c14Flow) actions(closing bool) []sim.Action {
 		// both end in the same state after this action, so the schedule stays
 		// replayable.)
 		acts = append(acts, sim.Action{ID: "cancel>all", Do: f.observeCancellations})
+	}
+	if !closing && f.mayAbandon != nil {
+		for _, c := range f.clients {
+			c := c
+			if c.cancel == nil || c.abandoned || !c.started || c.op.Done || !f.mayAbandon(c) {
+				continue
+			}
+			acts = append(acts, sim.Action{ID: "abandon>" + c.tag, Do: func() {
+				c.abandoned = true
+				f.abandons++
+				s.Count("fault_caller_ctx_ended")
+				if f.onAbandon != nil {
+					f.onAbandon(c)
+				}
+				c.cancel()
+			}})
+		}
 	}
 	if f.always != nil {
 		acts = append(acts, f.always()...)
